@@ -297,6 +297,104 @@ cELL    .fill x0044
 """, 0
 
 
+def p_return_other_reg(rnd):
+    # subroutines that come back to the address after the call WITHOUT the link register holding it: the link is kept in
+    # another register / in memory and R7 is clobbered meanwhile (nested call, scratch use), or the way back is a plain branch
+    k = rnd.randrange(4)
+    if k == 0:
+        return """main    and r1 r1 #0
+        jsr fn
+        add r1 r1 #1
+        add r1 r1 #1
+        halt
+fn      add r5 r7 #0
+        jsr gn
+        jmp r5
+gn      ret
+""", 0
+    if k == 1:
+        return """main    and r1 r1 #0
+        lea r2 fn
+        jsrr r2
+        add r1 r1 #1
+        add r1 r1 #1
+        halt
+fn      st r7 save
+        and r7 r7 #0
+        ld r3 save
+        jmp r3
+save    .fill #0
+""", 0
+    if k == 2:
+        return """main    and r1 r1 #0
+        jsr fn
+done    add r1 r1 #1
+        add r1 r1 #1
+        halt
+fn      and r7 r7 #0
+        add r1 r1 #4
+        brnzp done
+""", 0
+    return """main    and r1 r1 #0
+        add r6 r6 #-1
+        jsr fn
+        add r1 r1 #1
+        jsr fn
+        add r1 r1 #1
+        halt
+fn      str r7 r6 #0
+        jsr gn
+        ldr r4 r6 #0
+        jmp r4
+gn      add r1 r1 #2
+        ret
+""", 0
+
+
+def p_sub_halts(rnd):
+    # a subroutine that does not come back: it ends the program itself (an error exit), reached by JSR / JSRR / CALL,
+    # directly or one call further down
+    k = rnd.randrange(4)
+    if k == 0:
+        return """main    and r1 r1 #0
+        jsr fn
+        add r1 r1 #1
+        halt
+fn      add r1 r1 #2
+        halt
+""", 0
+    if k == 1:
+        return """main    lea r2 fn
+        jsrr r2
+        add r1 r1 #1
+        halt
+fn      jsr gn
+        ret
+gn      add r1 r1 #3
+        halt
+""", 0
+    if k == 2:
+        return """main    and r1 r1 #0
+        call fn
+        add r1 r1 #1
+        halt
+fn      add r1 r1 #2
+        halt
+""", 1
+    return """main    ld r1 val
+        brz done
+        jsr fn
+done    halt
+val     .fill #2
+fn      add r1 r1 #-1
+        brp fn
+        halt
+""", 0
+
+
+# (new templates go into PROGRAMS_LATER: the random sessions over PROGRAMS stay what they were, seed for seed)
+PROGRAMS_LATER = [p_return_other_reg, p_sub_halts]
+
 PROGRAMS = [p_swap, p_case_labels, p_selfmod_halt, p_reg_midline, p_image_into_device_area, p_call_next, p_call_next_loop, p_store_outside, p_countdown, p_nested_jsr, p_call_rets, p_push_pop, p_selfmod, p_exception, p_halt_middle, p_breaks, p_io,
             p_unknown_trap, p_selfloop, p_no_halt, p_high]
 
